@@ -79,7 +79,144 @@ fn feature_params_match(o: &Obj) -> Option<bool> {
     })
 }
 
+/// The ValueFormat bits a ValueRecord (JSON) will be written with: the
+/// explicit format if set, else one bit per present field.
+pub fn value_record_format(o: &Obj) -> Option<u64> {
+    if let Some(ef) = o.get("explicit_format") {
+        if !ef.is_null() {
+            return bits(ef);
+        }
+    }
+    Some(value_record_present_bits(o))
+}
+
+/// One bit per field that carries a value.
+pub fn value_record_present_bits(o: &Obj) -> u64 {
+    let mut f = 0u64;
+    for (k, b) in [("x_placement", 1u64), ("y_placement", 2), ("x_advance", 4), ("y_advance", 8)] {
+        if o.get(k).map(|v| !v.is_null()).unwrap_or(false) {
+            f |= b;
+        }
+    }
+    for (k, b) in [("x_placement_device", 0x10u64), ("y_placement_device", 0x20), ("x_advance_device", 0x40), ("y_advance_device", 0x80)] {
+        if o.get(k).and_then(through_obj).is_some() {
+            f |= b;
+        }
+    }
+    f
+}
+
+fn distinct_mark_classes(mark_array: &Value) -> Option<u64> {
+    let recs = through_obj(mark_array)?.get("mark_records")?.as_array()?;
+    let mut set = std::collections::BTreeSet::new();
+    for r in recs {
+        set.insert(r.get("mark_class")?.as_u64()?);
+    }
+    Some(set.len() as u64)
+}
+
+fn all_same_format<'a>(recs: impl Iterator<Item = &'a Value>) -> Option<bool> {
+    let mut first = None;
+    for r in recs {
+        let f = value_record_format(r.as_object()?)?;
+        match first {
+            None => first = Some(f),
+            Some(x) if x != f => return Some(false),
+            _ => {}
+        }
+    }
+    Some(true)
+}
+
 pub const RULES: &[Rule] = &[
+    Rule {
+        name: "ValueRecord.explicit_format~present-fields",
+        keys: &["explicit_format", "x_placement", "x_advance_device"],
+        check: |o| {
+            let ef = o.get("explicit_format")?;
+            if ef.is_null() {
+                return Some(true);
+            }
+            let f = bits(ef)?;
+            Some(value_record_present_bits(o) & !f == 0)
+        },
+    },
+    Rule {
+        name: "SinglePosFormat2.value_records-same-format",
+        keys: &["coverage", "value_records"],
+        check: |o| all_same_format(o.get("value_records")?.as_array()?.iter()),
+    },
+    Rule {
+        name: "MarkBasePosFormat1.mark_class_count~base_anchors",
+        keys: &["mark_array", "base_array"],
+        check: |o| {
+            let n = distinct_mark_classes(o.get("mark_array")?)?;
+            let Some(ba) = through_obj(o.get("base_array")?) else { return Some(true) };
+            for r in ba.get("base_records")?.as_array()? {
+                if len_of(r.get("base_anchors")?)? != n {
+                    return Some(false);
+                }
+            }
+            Some(true)
+        },
+    },
+    Rule {
+        name: "MarkMarkPosFormat1.mark_class_count~mark2_anchors",
+        keys: &["mark1_array", "mark2_array"],
+        check: |o| {
+            let n = distinct_mark_classes(o.get("mark1_array")?)?;
+            let Some(ba) = through_obj(o.get("mark2_array")?) else { return Some(true) };
+            for r in ba.get("mark2_records")?.as_array()? {
+                if len_of(r.get("mark2_anchors")?)? != n {
+                    return Some(false);
+                }
+            }
+            Some(true)
+        },
+    },
+    Rule {
+        name: "MarkLigPosFormat1.mark_class_count~ligature_anchors",
+        keys: &["mark_array", "ligature_array"],
+        check: |o| {
+            let n = distinct_mark_classes(o.get("mark_array")?)?;
+            let Some(la) = through_obj(o.get("ligature_array")?) else { return Some(true) };
+            for att in la.get("ligature_attaches")?.as_array()? {
+                let Some(att) = through_obj(att) else { continue };
+                for r in att.get("component_records")?.as_array()? {
+                    if len_of(r.get("ligature_anchors")?)? != n {
+                        return Some(false);
+                    }
+                }
+            }
+            Some(true)
+        },
+    },
+    Rule { name: "Cmap0.glyph_id_array~256", keys: &["language", "glyph_id_array"], check: |o| if o.len() == 2 { Some(len_of(o.get("glyph_id_array")?)? == 256) } else { None } },
+    Rule { name: "Cmap2.sub_header_keys~256", keys: &["sub_header_keys"], check: |o| Some(len_of(o.get("sub_header_keys")?)? == 256) },
+    Rule {
+        name: "Post.string_data-pascal-strings",
+        keys: &["string_data", "italic_angle"],
+        check: |o| {
+            let sd = o.get("string_data")?;
+            if sd.is_null() {
+                return Some(true);
+            }
+            for s in sd.as_array()? {
+                let s = s.as_str()?;
+                if s.len() > 255 || !s.is_ascii() {
+                    return Some(false);
+                }
+            }
+            Some(true)
+        },
+    },
+    Rule { name: "PatchMapFormat1|2.uri_template_length~uri_template", keys: &["uri_template_length", "uri_template"], check: |o| count_eq(o, "uri_template_length", "uri_template") },
+    Rule {
+        name: "PatchMapFormat1.max_entry_index~applied_entries_bitmap",
+        keys: &["max_entry_index", "applied_entries_bitmap"],
+        check: |o| Some(len_of(o.get("applied_entries_bitmap")?)? == (o.get("max_entry_index")?.as_u64()? + 1).div_ceil(8)),
+    },
+    Rule { name: "TableKeyedPatch.patches_count~patches", keys: &["patches_count", "patches"], check: |o| Some(len_of(o.get("patches")?)? == o.get("patches_count")?.as_u64()? + 1) },
     Rule { name: "Gasp.num_ranges~gasp_ranges", keys: &["num_ranges", "gasp_ranges"], check: |o| count_eq(o, "num_ranges", "gasp_ranges") },
     Rule { name: "Cmap6.entry_count~glyph_id_array", keys: &["entry_count", "glyph_id_array", "first_code"], check: |o| count_eq(o, "entry_count", "glyph_id_array") },
     Rule { name: "Cmap8|Cmap13.num_groups~groups", keys: &["num_groups", "groups"], check: |o| count_eq(o, "num_groups", "groups") },
@@ -136,6 +273,10 @@ pub const RULES: &[Rule] = &[
         keys: &["axis_count", "variation_regions"],
         check: |o| {
             let n = o.get("axis_count")?.as_u64()?;
+            // zero-sized region records cannot be counted back from the data
+            if n == 0 && !o.get("variation_regions")?.as_array()?.is_empty() {
+                return Some(false);
+            }
             for r in o.get("variation_regions")?.as_array()? {
                 if len_of(r.get("region_axes")?)? != n {
                     return Some(false);
